@@ -18,12 +18,12 @@ func init() {
 }
 
 type sqlCase struct {
-	setup   []*proto.Stmt
-	queries []*proto.NStmt
-	texts   []string
-	tags    []string
+	setup     []*proto.Stmt
+	queries   []*proto.NStmt
+	texts     []string
+	tags      []string
 	expectErr []bool // the property requires an error (ambiguity probes)
-	reopen  bool
+	reopen    bool
 }
 
 func randStyle(r *core.Rand) model.Style {
